@@ -29,7 +29,7 @@ def jobs_for(ctx):
              dict(max_dict_size=100, max_columns=8, hash="murmur", seed=3), dict(max_dict_size=3, max_columns=5, hash="murmur", seed=4),
              dict(max_dict_size=100, max_columns=1 << 16, hash="murmur", seed=5),
              dict(max_dict_size=100, max_columns=7, hash="murmur", seed=6, base={"a": 1, "b": 1})]
-    n = ctx.pick(700, 8000)
+    n = ctx.n(ctx.pick(700, 8000))
     extra = ["abcabc", "aaaaaaaa", "abababab", "a", "", "é中é中", "xyzzy", "abcabcabcabc"]
     while len(jobs) < n:
         cfg = rng.choice(cfgs)
